@@ -193,7 +193,7 @@ func genCase(rng *rand.Rand, i int) c18case {
 }
 
 type cstat struct {
-	msgs, announced, maxLen, empty int
+	msgs, announced, maxLen, empty, unsendable int
 	multi                          bool // more than one announcement message: the budget decided a cut
 	hung                           bool
 }
@@ -301,6 +301,17 @@ func runCase(c c18case, rep func(clause string, f map[string]string, detail stri
 	for _, p := range pfxs {
 		switch n := got[p.Key()]; {
 		case n == 0:
+			// a prefix that does not fit into an UPDATE of 4096 bytes even on its own (attribute block + this one
+			// NLRI) cannot be announced by any sender: outside what the property can ask for (2 bytes of slack
+			// for the extended-length header of MP_REACH_NLRI)
+			nl := 1 + (int(p.Len)+7)/8
+			if s.AddPath {
+				nl += 4
+			}
+			if 19+4+trueAttr+nl > 4096-2 {
+				st.unsendable++
+				continue
+			}
 			if lost == 0 {
 				firstLost = p
 			}
@@ -405,6 +416,7 @@ func main() {
 			r.Count("prefixes_announced", st.announced)
 			r.Count("updates_captured", st.msgs)
 			r.Count("updates_without_nlri", st.empty)
+			r.Count("prefixes_that_fit_no_update_not_judged", st.unsendable)
 			r.Max("max_message_bytes", int64(st.maxLen))
 			if st.multi {
 				r.Nontrivial(fmt.Sprintf("%s/%s/%d/%s", c.Sess, c.Block, c.N, c.PfxMode))
